@@ -629,5 +629,6 @@ theorem build_inr (now : Int) (c1 c2 : Tree) (cs : List Tree) (d : Nat) (hd : (T
   refine ⟨⟨x1 :: x2 :: xs, laOf (flat c1 :: flat c2 :: pss), false⟩, ?_⟩
   simp only [build, buildList, hx1, hx2, hxs, bind, Except.bind, pure, Except.pure, newComposite,
     mkLeftAfter_spec (lvlSem d) now _ _ hall]
+  rfl
 
 end Pandora.Proofs.C02Sem
